@@ -486,9 +486,32 @@ def percpu_leg(res, rng):
                         ld.run_k(bytes(64))
                     written[cpu] = vals
                     runs[cpu] = n
+                # a second loaded instance of the class (a map of its own,
+                # of the same size) runs on one CPU
+                twin = ldt = None
+                if nsub == 0:
+                    twin = cls()
+                    ldt = prog.Loaded(twin, sess)
+                    ldt.load()
+                    tcpu = rng.choice(allowed)
+                    os.sched_setaffinity(0, {tcpu})
+                    tn = rng.randint(6, 9)
+                    for _ in range(tn):
+                        ldt.run_k(bytes(64))
             finally:
                 os.sched_setaffinity(0, set(allowed))
             e.pm.read()
+            if twin is not None:
+                # its values are read after the first instance's and before
+                # the first instance's variables are looked at
+                twin.pm.read()
+                res.count("percpu_reads_of_a_second_loaded_instance")
+                if twin.cnt[tcpu] != tn or sum(twin.cnt) != tn:
+                    res.violation(
+                        "unexplained:percpu-second-instance",
+                        f"the second instance ran {tn} times on cpu {tcpu}, "
+                        f"its counter reads {list(twin.cnt)}",
+                        case=dict(fmts=fmts, cpus=cpus))
             res.case(["percpu", fmts, cpus])
             res.count("percpu_runs", sum(runs.values()))
             desc = dict(fmts=fmts, cpus=cpus, runs=runs)
@@ -539,6 +562,8 @@ def percpu_leg(res, rng):
                             case=desc)
                         break
             ld.close()
+            if ldt is not None:
+                ldt.close()
 
 
 def run_shard(params):
